@@ -39,7 +39,111 @@ MUTANTS = ["catch-first-clause", "finally-skipped-on-exit", "finally-twice",
            "finally-exit-swallows-error"]
 
 
+# ---- carriers: whatever sits between the raise and the handler must hand
+# the error on unchanged
+
+ERR_LITS = ["7", "'x'", "2.5", "TRUE", "[1, 'a']", "<<1>>", "<<<1 => 2>>>",
+            "date('20200101')", "'ERROR'", "0"]
+HUGE = "pow(10, 5000)"      # too long to be rendered by the host
+CARRIERS = [
+    ("direct", "error V"),
+    ("call", "def f(x) error V; f(1)"),
+    ("call-arg-object-with-_str_",
+     "def o = <*_str_ = fn(self) 'o'*>; def f(x) error V; f(o)"),
+    ("call-arg-object-with-bad-_str_",
+     "def o = <*_str_ = 1, _proto_ = 2*>; def f(x) error V; f(o)"),
+    ("call-arg-huge-int", f"def f(x) error V; f({HUGE})"),
+    ("call-arg-self-containing-list",
+     "def l = [1]; append(l, l); def f(x) error V; f(l)"),
+    ("call-arg-stream", "def f(x) error V; f(str_input('a'))"),
+    ("nested-calls", "def f(x) error V; def g(y) f(y); def h(z) g(z); h(1)"),
+    ("for-input", "for l in str_input('a\\nb') do error V end"),
+    ("for-list", "for x in [1, 2] do error V end"),
+    ("for-set", "for x in <<1, 2>> do error V end"),
+    ("for-map", "for x in entries <<<1 => 2>>> do error V end"),
+    ("for-object", "for x in <*a = 1*> do error V end"),
+    ("for-string", "for c in 'ab' do error V end"),
+    ("while", "while TRUE do error V end"),
+    ("eval-text", "def v_ = V; eval('error v_')"),
+    ("eval-node", "def v_ = V; eval(parse('error v_'))"),
+    ("s-placeholder", "def v_ = V; s('a {error v_} b')"),
+    ("sorted-cmp", "sorted([2, 1], cmp = fn(a, b) error V)"),
+    ("sorted-key", "sorted([2, 1], key = fn(a) error V)"),
+    ("find-key", "find([1], 1, key = fn(x) error V)"),
+    ("map_list", "map_list([1], fn(x) error V)"),
+    ("filter", "filter([1], fn(x) error V)"),
+    ("reduce", "reduce([1, 2], fn(a, b) error V)"),
+    ("for_each", "for_each([1], fn(x) error V)"),
+    ("process_lines", "process_lines(['a'], fn(x) error V)"),
+    ("process_lines-input", "process_lines(str_input('a'), fn(x) error V)"),
+    ("apply", "apply(fn(x) error V, [1])"),
+    ("list-comprehension", "[error V for x in [1]]"),
+    ("set-comprehension", "<<error V for x in [1]>>"),
+    ("map-comprehension", "<<<x => error V for x in [1]>>>"),
+    ("comprehension-filter", "[x for x in [1] if error V]"),
+    ("method", "<*m = fn(self) error V*>->m()"),
+    ("inherited-method",
+     "def p = <*m = fn(self) error V*>; <*_proto_ = p*>->m()"),
+    ("pipeline", "1 !> (fn(x) error V)()"),
+    ("argument", "length(error V)"), ("list-item", "[1, error V]"),
+    ("operand", "1 + error V"), ("condition", "if error V then 1"),
+    ("index", "[1][error V]"), ("default-value", "(fn(a = error V) a)()"),
+    ("finally-after", "do error V finally 1 end"),
+    ("inner-handler-of-another-value",
+     "do error V catch 'never-raised-value' 1 end"),
+    ("rethrown", "do error 'other-value' catch all error V end"),
+    ("deep-recursion-then-error",
+     "def f(n) if n == 0 then error V else f(n - 1); f(60)"),
+]
+
+
+def carrier_prop(name, carrier, lit):
+    from vf import cklrun
+    from vf.model import values as mv
+    body = carrier.replace("V", lit)
+    other = "'x'" if lit != "'x'" else "7"
+    src = (f"def t1 = do {body} catch {lit} 'caught' end; "
+           f"def t2 = do {body} catch {other} 'wrong' catch all 'all' end; "
+           f"def t3 = do do {body} catch {other} 'wrong' end catch {lit} "
+           f"'outer' end; [t1, t2, t3]")
+    out = cklrun.run(src, budget=20)
+    if out[0] != "value":
+        return Finding(f"C05|carrier|{name}|{out[0]}",
+                       f"{src} -> {cklrun.short(out)}")
+    got = cklrun.to_model(out[1])
+    if got != ["caught", "all", "outer"]:
+        return Finding(f"C05|carrier|{name}",
+                       f"{src} -> {got!r}, expected "
+                       f"['caught', 'all', 'outer']")
+    # uncaught: it leaves the interpreter carrying that value
+    out = cklrun.run(body, budget=20)
+    direct = cklrun.run(f"error {lit}", budget=20)
+    if out[0] != "error" or direct[0] != "error":
+        return Finding(f"C05|carrier|{name}|uncaught-{out[0]}",
+                       f"{body} -> {cklrun.short(out)}")
+    a, b = cklrun.to_model(out[1]), cklrun.to_model(direct[1])
+    if not (mv.meq(a, b) and mv.deep_type(a) == mv.deep_type(b)):
+        return Finding(f"C05|carrier|{name}|uncaught-value",
+                       f"{body} left the interpreter with {a!r}, `error "
+                       f"{lit}` leaves it with {b!r}")
+    return None
+
+
+def part_carriers(part):
+    for name, carrier in CARRIERS:
+        for lit in ERR_LITS:
+            part.count()
+            part.distinct()
+            part.cls("carrier:" + name, carrier if lit == "7" else None)
+            part.collect(carrier_prop(name, carrier, lit),
+                         {"kind": "carrier", "name": name, "lit": lit})
+    part.exhaustive = True
+
+
 def prop(case):
+    if case.get("kind") == "carrier":
+        carrier = dict(CARRIERS)[case["name"]]
+        return carrier_prop(case["name"], carrier, case["lit"])
     import ast as _ast
     stmts = _ast.literal_eval(case["ast"])
     m = ME.model_run(stmts)
@@ -88,7 +192,9 @@ def part_programs(part, n):
 
 
 def parts(tier, seed):
+    cr = [("carriers", part_carriers, {})]
     if tier == "quick":
-        return [(f"programs-{i}", part_programs, {"n": 1000})
-                for i in range(10)]
-    return [(f"programs-{i}", part_programs, {"n": 10000}) for i in range(12)]
+        return cr + [(f"programs-{i}", part_programs, {"n": 1000})
+                     for i in range(10)]
+    return cr + [(f"programs-{i}", part_programs, {"n": 10000})
+                 for i in range(12)]
